@@ -301,7 +301,12 @@ func c01Eval(r *rt.Run, pp parsedProg, edbText []string, edb []ast.Atom, kinds [
 		}
 		missing, extra := mg.Diff(want, got)
 		if len(missing) > 0 {
-			if pairs := hashCollisionPartners(ref.DB, missing); pairs != nil {
+			pairs := hashCollisionPartners(ref.DB, missing)
+			if pairs == nil && hashKeyedStore(kind) && len(extra) == 0 {
+				// facts derived from a conflated fact are missing too: attribute when the model itself holds a colliding pair
+				pairs = modelCollisions(ref.DB)
+			}
+			if pairs != nil {
 				w["colliding"] = pairs
 				r.Violate("missing-facts-hash-collision", fmt.Sprintf("store lacks %s; each has the same Atom.Hash() as another fact of the model: %v", mg.Short(missing), pairs), w)
 				continue
@@ -370,4 +375,25 @@ func hashCollisionPartners(db oracle.DB, missing []string) []string {
 		}
 	}
 	return pairs
+}
+
+// modelCollisions lists pairs of structurally different facts of one predicate with equal Atom.Hash()
+// in the reference model (the situation in which hash-keyed stores misbehave: known finding F8).
+func modelCollisions(db oracle.DB) []string {
+	byHash := map[string][]ast.Atom{}
+	for _, a := range db.Atoms() {
+		k := fmt.Sprintf("%s/%d#%x", a.Predicate.Symbol, a.Predicate.Arity, a.Hash())
+		byHash[k] = append(byHash[k], a)
+	}
+	var out []string
+	for _, as := range byHash {
+		if len(as) > 1 {
+			out = append(out, as[0].String()+" ~ "+as[1].String())
+		}
+	}
+	return out
+}
+
+func hashKeyedStore(kind string) bool {
+	return kind == "simple" || kind == "indexed" || kind == "multi" || kind == "teeing-empty" || kind == "teeing-base"
 }
